@@ -373,7 +373,12 @@ class BaseGenericDriver:
             N/A
 
         """
-        joined_input = ", ".join(event[0] for event in interact_events)
+        # inputs marked hidden (ex: passwords) are redacted here just like the channel redacts them
+        # in its logs, otherwise they would live on in the response object (repr, parser lookups)
+        joined_input = ", ".join(
+            event[0] if not (len(event) > 2 and event[2]) else "REDACTED"
+            for event in interact_events
+        )
         return cls._pre_send_command(
             host=host, command=joined_input, failed_when_contains=failed_when_contains
         )
